@@ -59,6 +59,18 @@ pub fn configs(thorough: bool) -> Vec<(String, HCfg)> {
     out
 }
 
+pub fn regression_holds(payload: &serde_json::Value) -> bool {
+    let name = payload["workload"].as_str().unwrap_or("");
+    let hist = crate::hsim::parse_history(payload["history"].as_str().unwrap_or("[]"));
+    let cfgs = configs(true);
+    let cfg = match cfgs.iter().find(|(n, _)| n == name) {
+        Some((_, c)) => c.clone(),
+        None => return true,
+    };
+    let monitors = Monitors { c03: false, c04: false, c13: false, c15: true, c19: false };
+    rt::run(run_history_with(&cfg, monitors, &hist, true, &Idler { max_idles: 3 })).violation.is_none()
+}
+
 pub fn replay(payload: &serde_json::Value) {
     let name = payload["workload"].as_str().unwrap_or("");
     let hist = crate::hsim::parse_history(payload["history"].as_str().unwrap_or("[]"));
